@@ -14,6 +14,9 @@ import PhreeqcVerif.Model.GasPhase
     eos <P> <TK> <Vm> <n> {<hexname> <moles>}*n   independent EOS evaluation for the relations on real runs
          -> E <P(Vm)> <Vm(P)> <disct(P)> <branch> {<x> <lnphi raw at (P,Vm)> <z-B>}*n
     symtab              -> SYM true|false   (`symmetricTab` on the kij entries given so far)
+    damp <vmOld> <vol> <n>   -> DV <dampVm>
+    ptest <last> <patm> <totalP>  -> PT true|false   (`pressureTestFails`)
+    gasin <f> <P> <moles> <minTotal>  -> GI true|false   (`gasIn`, mb_gases)
     ideal <n> <TK> <V>  -> I <P>
 doubles are 16 hex digits of the bit pattern. -/
 namespace Driver.Gas
@@ -104,6 +107,18 @@ def step (st : St) (line : String) : St × Option String :=
     | some it, some vol, some tk, some pairs => (st, some (doPRN st it vol tk pairs))
     | _, _, _, _ => (st, some "bad-op")
   | ["fresh"] => (st, none)
+  | ["damp", a, b, c] =>
+    match floatOfHex a, floatOfHex b, floatOfHex c with
+    | some vo, some vol, some n => (st, some s!"DV {hx (GasPhase.dampVm vo vol n)}")
+    | _, _, _ => (st, some "bad-op")
+  | ["ptest", a, b, c] =>
+    match floatOfHex a, floatOfHex b, floatOfHex c with
+    | some l, some p, some t => (st, some s!"PT {GasPhase.pressureTestFails l p t}")
+    | _, _, _ => (st, some "bad-op")
+  | ["gasin", a, b, c, d] =>
+    match floatOfHex a, floatOfHex b, floatOfHex c, floatOfHex d with
+    | some f, some p, some m, some mt => (st, some s!"GI {GasPhase.gasIn f p m mt}")
+    | _, _, _, _ => (st, some "bad-op")
   | ["symtab"] => (st, some s!"SYM {symmetricTab st.tab}")
   | "eos" :: p :: tk :: vm :: _n :: rest =>
     match floatOfHex p, floatOfHex tk, floatOfHex vm, parsePairs rest with
